@@ -77,6 +77,10 @@ func (env *Env) elab(x Expr) Val {
 			if err != nil {
 				env.fail("ghost %s: %v", x.Name, err)
 			}
+			if e.refine != nil && e.refine.impl.Ghost == x.Name && env.St.PH == nil {
+				e.ensureSortDecl(ty)
+				return Val{T: e.refineView(env.St, env), Ty: ty}
+			}
 			e.regHeap("G."+x.Name, ty.Sort())
 			e.ensureSortDecl(ty)
 			return Val{T: e.get(env.St, "G."+x.Name), Ty: ty}
@@ -213,7 +217,7 @@ func (env *Env) elab(x Expr) Val {
 			}
 			if !found {
 				fty, _ := e.W.resolveType(f.T, dt.Imports, "")
-				args[i] = fty.Zero(e.S)
+				args[i] = e.zeroOf(fty)
 			}
 		}
 		if len(args) == 0 {
@@ -861,4 +865,26 @@ func (env *Env) callGoMethod(recv Val, name string, args []Val) Val {
 	}
 	env.fail("no method %s on %s", name, recv.Ty.Go)
 	return Val{}
+}
+
+// zeroOf: zero value of a spec type, including spec datatypes (all fields zero).
+func (e *Exec) zeroOf(ty *STy) string {
+	if ty.K != KData {
+		e.ensureSortDecl(ty)
+		return ty.Zero(e.S)
+	}
+	e.ensureSortDecl(ty)
+	dt := e.W.Types[ty.Name]
+	if len(dt.Fields) == 0 {
+		return "mk-" + ty.Name
+	}
+	var args []string
+	for _, f := range dt.Fields {
+		fty, err := e.W.resolveType(f.T, dt.Imports, "")
+		if err != nil {
+			panic(elabError{err.Error()})
+		}
+		args = append(args, e.zeroOf(fty))
+	}
+	return "(mk-" + ty.Name + " " + strings.Join(args, " ") + ")"
 }
